@@ -1,6 +1,7 @@
 package harness
 
 import (
+	"compress/gzip"
 	"strconv"
 	"bytes"
 	"context"
@@ -58,6 +59,7 @@ func c10ServerTLS() *tls.Config {
 // c10Resp is the scripted behaviour for one request class (path).
 type c10Resp struct {
 	Class       string `json:"body_class"`
+	Gzip        bool   `json:"gzip_if_offered,omitempty"`
 	Verdict     string `json:"-"` // object | object+garbage | not-object
 	Status      int    `json:"status"`
 	Framing     string `json:"framing"` // length | chunked | close
@@ -182,11 +184,26 @@ func (s *c10Server) serveOne(raw *simnet.TCPConn, conn net.Conn, rec *simnet.Con
 		block()
 		return false
 	}
+	// an endpoint that honours Accept-Encoding (Elasticsearch does by default): the body goes out
+	// gzip-compressed when, and only when, the request offered that
+	body := rs.body
+	gz := rs.Gzip && len(body) > 0 && strings.Contains(strings.ToLower(string(head)), "accept-encoding: gzip")
+	if gz {
+		var zb bytes.Buffer
+		zw := gzip.NewWriter(&zb)
+		zw.Write(body)
+		zw.Close()
+		body = zb.Bytes()
+		simrt.Fault("http-gzip-body")
+	}
 	var hb bytes.Buffer
 	fmt.Fprintf(&hb, "HTTP/1.1 %d %s\r\nContent-Type: application/json\r\n", rs.Status, statusText(rs.Status))
+	if gz {
+		hb.WriteString("Content-Encoding: gzip\r\n")
+	}
 	switch rs.Framing {
 	case "length":
-		fmt.Fprintf(&hb, "Content-Length: %d\r\n", len(rs.body))
+		fmt.Fprintf(&hb, "Content-Length: %d\r\n", len(body))
 	case "chunked":
 		hb.WriteString("Transfer-Encoding: chunked\r\n")
 	}
@@ -256,8 +273,8 @@ func (s *c10Server) serveOne(raw *simnet.TCPConn, conn net.Conn, rec *simnet.Con
 			block()
 			return false
 		}
-		lo, hi := len(rs.body)*i/n, len(rs.body)*(i+1)/n
-		if err := writeBody(rs.body[lo:hi]); err != nil {
+		lo, hi := len(body)*i/n, len(body)*(i+1)/n
+		if err := writeBody(body[lo:hi]); err != nil {
 			return false
 		}
 	}
@@ -344,6 +361,7 @@ func c10GenResp(p picker, label string, kind string, timeout time.Duration, faul
 	r.Framing = []string{"length", "chunked", "close"}[p.n(label+".framing", 3)]
 	r.Pieces = p.pick(label+".pieces", 1, 1, 2, 3, 7)
 	r.KeepAlive = p.bool(label + ".keepalive")
+	r.Gzip = kind == "elastic" && p.pct(label+".gzip", 30)
 	// delays: odd nanoseconds so that nothing coincides with a (round) timeout
 	odd := func(lbl string, hi time.Duration) time.Duration {
 		return time.Duration(p.n(lbl, int(hi/2)))*2 + 1
@@ -421,7 +439,7 @@ func runC10(t *testing.T, c simrt.Chooser, o Opts) *Out {
 	if p.pct("mismatch", 6) {
 		sc.Server = map[string]string{"http": "https", "https": "http"}[sc.Scheme]
 	}
-	timeout := []time.Duration{50 * time.Millisecond, time.Second, 5 * time.Second}[p.n("timeout", 3)]
+	timeout := []time.Duration{50 * time.Millisecond, time.Second, 5 * time.Second, 20 * time.Second, 60 * time.Second}[p.n("timeout", 5)]
 	sc.Timeout = timeout.String()
 	port := p.pick("port", 9200, 2375, 2376, 443, 80, 65535)
 	sc.Connect = []string{"accept", "accept", "accept", "accept", "accept", "accept", "refuse", "blackhole"}[p.n("connect", 8)]
